@@ -110,6 +110,20 @@ fn c08_flat_numeric_filters() {
   std::mem::forget(ff);
 }
 
+/// ASCII-only stand-in for `str::to_lowercase` (the real one walks the Unicode case
+/// tables; `case_insensitive_equals` only calls it when one side is not ASCII, which
+/// the symbolic executor cannot rule out for symbolic bytes).
+fn ascii_to_lowercase(x: &str) -> String {
+  let b = x.as_bytes();
+  let mut v = Vec::with_capacity(b.len());
+  let mut i = 0;
+  while i < b.len() {
+    v.push(lower(b[i]));
+    i += 1;
+  }
+  unsafe { String::from_utf8_unchecked(v) }
+}
+
 fn lower(b: u8) -> u8 {
   if b >= b'A' && b <= b'Z' {
     b + 32
@@ -131,13 +145,14 @@ fn ci_eq(a: [u8; 2], b: [u8; 2]) -> bool {
 
 //@ props: C08
 //@ tier: quick
-//@ funcs: query::filters::passes_filter, filter_matches; index::fastfields::FastFieldsReader::matches_keyword, matches_keyword_in, case_insensitive_equals
-//@ symbolic: two dictionary terms and two filter constants (any 2 ASCII letters/bytes each), which dictionary entry the single-valued field holds (or none), the two entries of a multi-valued field
-//@ bounds: 1 document, dictionary of 2 two-byte ASCII terms
+//@ funcs: query::filters::passes_filter, filter_matches (keyword arms); index::fastfields::FastFieldsReader::matches_keyword, matches_keyword_in, case_insensitive_equals
+//@ symbolic: two dictionary terms and two filter constants (any 2 ASCII bytes each); the single-valued field holds the second dictionary entry, the multi-valued field both, a third field is missing for the document
+//@ bounds: 1 document, dictionary of 2 two-byte ASCII terms (dictionary indices are concrete: a symbolic index makes the String pointer symbolic and CBMC runs out of memory)
 //@ oracle: keyword equality and membership ignore ASCII case; any value of a multi-valued field can satisfy the clause; a missing value never matches
-//@ assumes: container models; ASCII keywords (non-ASCII case folding is outside)
+//@ assumes: container model; str::to_lowercase replaced by an ASCII-only version (keywords are ASCII; non-ASCII case folding is outside)
 #[kani::proof]
 #[kani::unwind(6)]
+#[kani::stub(str::to_lowercase, ascii_to_lowercase)]
 fn c08_keyword_filters_case_insensitive() {
   let d0: [u8; 2] = kani::any();
   let d1: [u8; 2] = kani::any();
@@ -145,33 +160,45 @@ fn c08_keyword_filters_case_insensitive() {
   let q1: [u8; 2] = kani::any();
   kani::assume(d0[0] < 0x80 && d0[1] < 0x80 && d1[0] < 0x80 && d1[1] < 0x80);
   kani::assume(q0[0] < 0x80 && q0[1] < 0x80 && q1[0] < 0x80 && q1[1] < 0x80);
-  let has: bool = kani::any();
-  let pick: bool = kani::any();
-  let (l0, l1): (bool, bool) = (kani::any(), kani::any());
   let mut r = empty_reader();
-  add_str(&mut r, "k", v2(ascii2(d0), ascii2(d1)), if has { Some(pick as u32) } else { None });
-  add_str_list(&mut r, "t", v2(ascii2(d0), ascii2(d1)), v2(l0 as u32, l1 as u32));
-  let kv = if pick { d1 } else { d0 };
-  let (t0, t1) = (if l0 { d1 } else { d0 }, if l1 { d1 } else { d0 });
+  add_str(&mut r, "k", v2(ascii2(d0), ascii2(d1)), Some(1));
+  add_str(&mut r, "none", v2(ascii2(d0), ascii2(d1)), None);
+  add_str_list(&mut r, "t", v2(ascii2(d0), ascii2(d1)), v2(0, 1));
+  // a multi-valued field whose document uses only the SECOND dictionary entry (the
+  // dictionary is keyed by exact spelling, so it can hold two case variants of one keyword)
+  add_str_list(&mut r, "u", v2(ascii2(d0), ascii2(d1)), v2(1, 1));
   let eq = Filter::KeywordEq {
     field: s("k"),
     value: ascii2(q0),
   };
-  assert!(passes_filter(&r, 0, &eq) == (has && ci_eq(kv, q0)), "C08: keyword equality must ignore case");
+  assert!(passes_filter(&r, 0, &eq) == ci_eq(d1, q0), "C08: keyword equality must ignore case");
+  let eq_none = Filter::KeywordEq {
+    field: s("none"),
+    value: ascii2(q0),
+  };
+  assert!(!passes_filter(&r, 0, &eq_none), "C08: a missing keyword value must not match");
   let eq_t = Filter::KeywordEq {
     field: s("t"),
     value: ascii2(q0),
   };
-  assert!(passes_filter(&r, 0, &eq_t) == (ci_eq(t0, q0) || ci_eq(t1, q0)), "C08: any value of a multi-valued keyword field can match");
+  assert!(passes_filter(&r, 0, &eq_t) == (ci_eq(d0, q0) || ci_eq(d1, q0)), "C08: any value of a multi-valued keyword field can match");
+  let eq_u = Filter::KeywordEq {
+    field: s("u"),
+    value: ascii2(q0),
+  };
+  assert!(passes_filter(&r, 0, &eq_u) == ci_eq(d1, q0), "C08: keyword equality on a multi-valued field must compare every value case-insensitively");
   let isin = Filter::KeywordIn {
     field: s("k"),
     values: v2(ascii2(q0), ascii2(q1)),
   };
-  assert!(passes_filter(&r, 0, &isin) == (has && (ci_eq(kv, q0) || ci_eq(kv, q1))), "C08: keyword membership must ignore case");
-  kani::cover!(has && ci_eq(kv, q0) && kv[0] != q0[0], "match that differs in case");
-  kani::cover!(!ci_eq(t0, q0) && ci_eq(t1, q0), "second value of the multi-valued field matches");
+  assert!(passes_filter(&r, 0, &isin) == (ci_eq(d1, q0) || ci_eq(d1, q1)), "C08: keyword membership must ignore case");
+  kani::cover!(ci_eq(d1, q0) && d1[0] != q0[0], "match that differs in case");
+  kani::cover!(!ci_eq(d0, q0) && ci_eq(d1, q0), "second value of the multi-valued field matches");
+  kani::cover!(ci_eq(d0, q0) && ci_eq(d1, q0) && d0[0] != d1[0], "dictionary holds two case variants of the keyword");
   std::mem::forget(r);
+  std::mem::forget(eq_u);
   std::mem::forget(eq);
+  std::mem::forget(eq_none);
   std::mem::forget(eq_t);
   std::mem::forget(isin);
 }
@@ -185,7 +212,7 @@ fn c08_keyword_filters_case_insensitive() {
 //@ assumes: container model; nested_count_key / nested_parent_key / qualified_field replaced by string-concatenation equivalents (the format! machinery does not terminate in reasonable time)
 //@ outside: sibling nested clauses under And binding to the same object, nested paths inside nested paths (Filter trees on the heap, see the note above); index-time construction of the nested columns
 #[kani::proof]
-#[kani::unwind(6)]
+#[kani::unwind(18)]
 #[kani::stub(crate::index::fastfields::nested_count_key, concat_nested_count_key)]
 #[kani::stub(crate::index::fastfields::nested_parent_key, concat_nested_parent_key)]
 #[kani::stub(qualified_field, concat_qualified_field)]
